@@ -26,7 +26,7 @@ const mutexField = "newAddrMtx"
 type site struct {
 	Name   string   `json:"name"`
 	File   string   `json:"file"`
-	Held   bool     `json:"held"`
+	Held   *bool    `json:"held"` // null: locking shape of this site not understood (Why says what)
 	Why    string   `json:"why"`
 	Via    []string `json:"via"`    // what it reaches inside the transaction
 	Unlock string   `json:"unlock"` // "defer" | "after" | ""
@@ -594,16 +594,119 @@ func main() {
 	fmt.Println(string(b))
 }
 
-// heldAround decides whether newAddrMtx is locked before the statement that
-// contains the Update call and unlocked only after it.
-func heldAround(fset *token.FileSet, fd *ast.FuncDecl, call *ast.CallExpr, fl *ast.FuncLit) (bool, string, string) {
-	where := fset.Position(call.Pos()).String()
-	if crossesFuncLit(fd.Body, call, nil) {
-		die("%s: the Update call of %s is itself inside a closure; shape not understood", where, fd.Name.Name)
+// siteRefusal is raised (panic) when the locking shape of ONE site is not
+// understood; the site is then reported with held = null and the reason, so
+// that the caller can determine the flag some other way.  Shapes that make the
+// site list itself unreliable still end the program (die).
+type siteRefusal struct{ msg string }
+
+func refuse(format string, a ...interface{}) {
+	panic(siteRefusal{fmt.Sprintf(format, a...)})
+}
+
+const notTaken = "newAddrMtx is not taken"
+
+// heldAround decides the flag of one site; nil = shape not understood.
+func heldAround(fset *token.FileSet, fd *ast.FuncDecl, call *ast.CallExpr, fl *ast.FuncLit) (held *bool, why, unlock string) {
+	defer func() {
+		if r := recover(); r != nil {
+			sr, ok := r.(siteRefusal)
+			if !ok {
+				panic(r)
+			}
+			held, why, unlock = nil, sr.msg, ""
+		}
+	}()
+	h, w, u := heldNested(fset, fd, call, fl)
+	if !h && w == notTaken {
+		// no positive evidence of a wrong protocol either: the mutex may be
+		// taken through an alias, a helper or by the callers
+		refuse("%s: no newAddrMtx.Lock() recognised before the Update of %s (taken through an alias, a helper, or by the callers?)",
+			fset.Position(call.Pos()), fd.Name.Name)
 	}
-	path := pathTo(fd.Body.List, call)
+	return &h, w, u
+}
+
+// heldNested handles an Update that sits inside immediately invoked function
+// literals:  err = func() error { Lock(); defer Unlock(); return walletdb.Update(..) }()
+// The innermost literal is analysed as a scope of its own; if the mutex is not
+// touched there, the invocation of the literal takes the place of the Update
+// call in the enclosing scope.
+func heldNested(fset *token.FileSet, fd *ast.FuncDecl, call ast.Expr, fl *ast.FuncLit) (bool, string, string) {
+	where := fset.Position(call.Pos()).String()
+	// innermost function literal that encloses call
+	var encl *ast.FuncLit
+	ast.Inspect(fd.Body, func(n ast.Node) bool {
+		if l, ok := n.(*ast.FuncLit); ok && l.Pos() < call.Pos() && call.End() <= l.End() && ast.Node(l) != ast.Node(call) {
+			if c, isCall := call.(*ast.CallExpr); !(isCall && c.Fun == ast.Expr(l)) {
+				encl = l // later (deeper) ones overwrite
+			}
+		}
+		return true
+	})
+	if encl == nil {
+		return heldIn(fset, fd, fd.Body, call, fl)
+	}
+	// it must be invoked on the spot, not started as a goroutine, deferred or stored
+	var inv *ast.CallExpr
+	bad := ""
+	ast.Inspect(fd.Body, func(n ast.Node) bool {
+		switch x := n.(type) {
+		case *ast.GoStmt:
+			if x.Call.Fun == ast.Expr(encl) {
+				bad = "started as a goroutine"
+			}
+		case *ast.DeferStmt:
+			if x.Call.Fun == ast.Expr(encl) {
+				bad = "deferred"
+			}
+		case *ast.CallExpr:
+			if x.Fun == ast.Expr(encl) {
+				inv = x
+			}
+		}
+		return true
+	})
+	if inv == nil || bad != "" {
+		if bad == "" {
+			bad = "not invoked where it is written"
+		}
+		refuse("%s: the Update call of %s is inside a function literal that is %s; shape not understood", where, fd.Name.Name, bad)
+	}
+	if len(inv.Args) != 0 {
+		refuse("%s: the function literal wrapping the Update of %s takes arguments; shape not understood", where, fd.Name.Name)
+	}
+	h, w, u := heldIn(fset, fd, encl.Body, call, fl)
+	if h {
+		return true, w + " (inside an immediately invoked function literal that wraps the Update)", u
+	}
+	if w != notTaken && !containsMutexCall(encl, "Lock", true) && !containsMutexCall(encl, "Unlock", true) {
+		w = notTaken
+	}
+	if w != notTaken {
+		return false, w, u
+	}
+	if containsMutexCall(encl, "Lock", true) || containsMutexCall(encl, "Unlock", true) {
+		return false, w, u
+	}
+	// the literal does not touch the mutex: look at where it is invoked
+	return heldNested(fset, fd, inv, encl)
+}
+
+// heldIn decides whether newAddrMtx is locked before the statement that
+// contains the Update call and unlocked only after it.
+//
+// It works on one "scope": the statement list of the function body, or of an
+// immediately invoked function literal that wraps the Update (its body runs
+// inline and its deferred calls run when it returns, i.e. after the Update
+// returned).  call is the expression whose evaluation contains the whole
+// transaction (the Update call, or the invocation of the wrapping literal);
+// fl is the closure that runs inside it.
+func heldIn(fset *token.FileSet, fd *ast.FuncDecl, scope *ast.BlockStmt, call ast.Expr, fl *ast.FuncLit) (bool, string, string) {
+	where := fset.Position(call.Pos()).String()
+	path := pathTo(scope.List, call)
 	if path == nil {
-		die("%s: cannot locate the Update call of %s in its statement list", where, fd.Name.Name)
+		refuse("%s: cannot locate the Update call of %s in its statement list", where, fd.Name.Name)
 	}
 	// statements that precede the Update in program order along the path
 	lockLevel, lockIdx := -1, -1
@@ -615,7 +718,7 @@ func heldAround(fset *token.FileSet, fd *ast.FuncDecl, call *ast.CallExpr, fl *a
 				continue
 			}
 			if containsMutexCall(s, "Lock", true) {
-				die("%s: %s takes newAddrMtx inside a nested statement before the Update; shape not understood", where, fd.Name.Name)
+				refuse("%s: %s takes newAddrMtx inside a nested statement before the Update; shape not understood", where, fd.Name.Name)
 			}
 		}
 	}
@@ -627,7 +730,7 @@ func heldAround(fset *token.FileSet, fd *ast.FuncDecl, call *ast.CallExpr, fl *a
 		if containsMutexCall(fd.Body, "Lock", true) {
 			return false, "newAddrMtx.Lock() does not precede the Update call", ""
 		}
-		return false, "newAddrMtx is not taken", ""
+		return false, notTaken, ""
 	}
 	// between the Lock and the Update: a deferred Unlock, and no other Unlock
 	deferred := false
@@ -644,7 +747,7 @@ func heldAround(fset *token.FileSet, fd *ast.FuncDecl, call *ast.CallExpr, fl *a
 				continue
 			}
 			if containsMutexCall(s, "Unlock", true) {
-				die("%s: %s releases newAddrMtx between Lock and the Update (conditionally?); shape not understood", where, fd.Name.Name)
+				refuse("%s: %s releases newAddrMtx between Lock and the Update (conditionally?); shape not understood", where, fd.Name.Name)
 			}
 		}
 	}
@@ -664,7 +767,7 @@ func heldAround(fset *token.FileSet, fd *ast.FuncDecl, call *ast.CallExpr, fl *a
 	if lockLevel != len(path)-1 {
 		// the Update sits deeper than the Lock: the enclosing statement must not jump out
 		if containsJump(holder) {
-			die("%s: %s: the statement enclosing the Update may leave the function/loop while newAddrMtx is held; shape not understood", where, fd.Name.Name)
+			refuse("%s: %s: the statement enclosing the Update may leave the function/loop while newAddrMtx is held; shape not understood", where, fd.Name.Name)
 		}
 	}
 	for i := lv.idx + 1; i < len(lv.list); i++ {
@@ -673,13 +776,13 @@ func heldAround(fset *token.FileSet, fd *ast.FuncDecl, call *ast.CallExpr, fl *a
 			return true, "Lock before the Update, Unlock after it in the same block", "after"
 		}
 		if containsMutexCall(s, "Unlock", true) {
-			die("%s: %s releases newAddrMtx inside a nested statement after the Update; shape not understood", where, fd.Name.Name)
+			refuse("%s: %s releases newAddrMtx inside a nested statement after the Update; shape not understood", where, fd.Name.Name)
 		}
 		if containsJump(s) {
-			die("%s: %s may leave the block between the Update and the Unlock of newAddrMtx; shape not understood", where, fd.Name.Name)
+			refuse("%s: %s may leave the block between the Update and the Unlock of newAddrMtx; shape not understood", where, fd.Name.Name)
 		}
 	}
-	die("%s: %s locks newAddrMtx before the Update but no matching Unlock was found; shape not understood", where, fd.Name.Name)
+	refuse("%s: %s locks newAddrMtx before the Update but no matching Unlock was found; shape not understood", where, fd.Name.Name)
 	return false, "", ""
 }
 
